@@ -45,6 +45,13 @@ SVT_VERIF_API void     svt_verif_hb_release(const volatile void *addr);
 SVT_VERIF_API void     svt_verif_hb_acquire(const volatile void *addr);
 SVT_VERIF_API uint64_t svt_verif_hb_count(void);
 
+/* H5: block-level coding-tool use counted by the decoder's block parser (one call per parsed block).
+ * index: 0 blocks, 1 palette, 2 intrabc, 3 filter-intra, 4 CfL, 5 inter-intra, 6 OBMC, 7 warped (local) motion */
+#define SVT_VERIF_DEC_TOOLS 8
+SVT_VERIF_API void svt_verif_dec_tool_note(int palette, int intrabc, int filter_intra, int cfl, int inter_intra,
+                                           int obmc, int warped);
+SVT_VERIF_API void svt_verif_dec_tool_counts(uint64_t out[SVT_VERIF_DEC_TOOLS]);
+
 #ifdef __cplusplus
 }
 #endif
